@@ -17,9 +17,13 @@ use serde_json::{json, Value};
 use std::cell::RefCell;
 use std::collections::{BTreeMap, HashSet};
 use std::hash::{Hash, Hasher};
-use std::path::{Path, PathBuf};
+use std::path::PathBuf;
 
-pub const VERIF_ROOT: &str = "/verif";
+/// Root of the verification tree: /verif, or the directory named by VERIF_ROOT (set by the
+/// driver script to its own location, so that a snapshot of the tree can run next to the original).
+pub fn verif_root() -> std::path::PathBuf {
+    std::path::PathBuf::from(std::env::var("VERIF_ROOT").unwrap_or_else(|_| "/verif".to_string()))
+}
 
 #[derive(Clone, Copy, PartialEq, Eq, Debug)]
 pub enum Tier {
@@ -130,7 +134,7 @@ pub struct KnownFinding {
 }
 
 pub fn load_known() -> Vec<KnownFinding> {
-    let p = Path::new(VERIF_ROOT).join("known_findings.json");
+    let p = verif_root().join("known_findings.json");
     match std::fs::read(&p) {
         Ok(b) => serde_json::from_slice(&b).unwrap_or_else(|e| inconclusive(&format!("known_findings.json unreadable: {e}"))),
         Err(_) => vec![],
@@ -272,7 +276,7 @@ impl Worker {
     }
 
     fn write_replay(&mut self, sub: &str, v: &Violation, case: Value) -> String {
-        let dir = Path::new(VERIF_ROOT).join("replays");
+        let dir = verif_root().join("replays");
         let _ = std::fs::create_dir_all(&dir);
         let body = json!({"property": self.id, "sub": sub, "signature": v.signature, "detail": v.detail, "case": case});
         let name = format!("{}-{}-{:016x}.json", self.id, sub, hash_json(&body["case"]));
@@ -291,7 +295,7 @@ impl Worker {
         if self.shard != 0 {
             return;
         }
-        let dir = Path::new(VERIF_ROOT).join("regress").join(self.id);
+        let dir = verif_root().join("regress").join(self.id);
         let mut files: Vec<PathBuf> = match std::fs::read_dir(&dir) {
             Ok(rd) => rd.filter_map(|e| e.ok()).map(|e| e.path()).collect(),
             Err(_) => return,
